@@ -1,14 +1,152 @@
-//! tdigest family: to be written (see /verif/AGENT_GUIDE.md).
-use crate::{Family, Ob, PANIC};
+//! tdigest family: replays t-digest cases on the real crate through its public API only
+//! (op codes: see /verif/coq/theories/Corr/TDigest.v).
+use datasketches::tdigest::TDigestMut;
 
-pub struct Fam;
+use crate::{fbits, Family, Ob, ERR, PANIC};
+
+const NONE: i128 = -2;
+
+pub struct Fam {
+    slots: Vec<Option<TDigestMut>>,
+}
+
+fn f(a: i128) -> f64 {
+    f64::from_bits(a as u64)
+}
+
+fn ob_opt(x: Option<f64>) -> i128 {
+    match x {
+        Some(v) => fbits(v),
+        None => NONE,
+    }
+}
+
+fn ob_list(x: Option<Vec<f64>>) -> Ob {
+    match x {
+        Some(v) => v.into_iter().map(fbits).collect(),
+        None => vec![NONE],
+    }
+}
+
+fn rd_f64(b: &[u8], off: usize) -> f64 {
+    f64::from_le_bytes(b[off..off + 8].try_into().unwrap())
+}
+
+/// parse the crate's own image: [k, reverse_merge, n, min, max, mean_0, weight_0, ...]
+fn parse_image(b: &[u8]) -> Ob {
+    let k = u16::from_le_bytes([b[3], b[4]]) as i128;
+    let flags = b[5];
+    let rev = ((flags & 4) != 0) as i128;
+    if flags & 1 != 0 {
+        return vec![k, rev, 0, NONE, NONE];
+    }
+    if flags & 2 != 0 {
+        let v = fbits(rd_f64(b, 8));
+        return vec![k, rev, 1, v, v, v, 1];
+    }
+    let n = u32::from_le_bytes(b[8..12].try_into().unwrap()) as usize;
+    let mut out = vec![k, rev, n as i128, fbits(rd_f64(b, 16)), fbits(rd_f64(b, 24))];
+    for i in 0..n {
+        let off = 32 + 16 * i;
+        out.push(fbits(rd_f64(b, off)));
+        out.push(u64::from_le_bytes(b[off + 8..off + 16].try_into().unwrap()) as i128);
+    }
+    out
+}
 
 impl Family for Fam {
     fn new(_cfg: &[i128]) -> Self {
-        Fam
+        Fam { slots: (0..8).map(|_| None).collect() }
     }
 
-    fn step(&mut self, _code: i64, _a: &[i128]) -> Ob {
-        vec![PANIC]
+    fn step(&mut self, code: i64, a: &[i128]) -> Ob {
+        let slot = a[0] as usize;
+        match code {
+            0 => {
+                self.slots[slot] = Some(TDigestMut::new(a[1] as u16));
+                vec![]
+            }
+            1 => {
+                self.slots[slot].as_mut().unwrap().update(f(a[1]));
+                vec![]
+            }
+            2 => {
+                let other = self.slots[a[1] as usize].clone().unwrap();
+                let empty = other.is_empty();
+                let dst = self.slots[slot].as_mut().unwrap();
+                dst.merge(&other);
+                if empty { vec![] } else { parse_image(&dst.clone().serialize()) }
+            }
+            3 | 4 => {
+                let mode = a[1];
+                let args: Vec<f64> = a[2..].iter().map(|x| f(*x)).collect();
+                if mode == 0 {
+                    let s = self.slots[slot].as_mut().unwrap();
+                    args.iter().map(|x| ob_opt(if code == 3 { s.rank(*x) } else { s.quantile(*x) })).collect()
+                } else {
+                    let s = self.slots[slot].clone().unwrap().freeze();
+                    args.iter().map(|x| ob_opt(if code == 3 { s.rank(*x) } else { s.quantile(*x) })).collect()
+                }
+            }
+            5 | 6 => {
+                let mode = a[1];
+                let args: Vec<f64> = a[2..].iter().map(|x| f(*x)).collect();
+                if mode == 0 {
+                    let s = self.slots[slot].as_mut().unwrap();
+                    ob_list(if code == 5 { s.cdf(&args) } else { s.pmf(&args) })
+                } else {
+                    let s = self.slots[slot].clone().unwrap().freeze();
+                    ob_list(if code == 5 { s.cdf(&args) } else { s.pmf(&args) })
+                }
+            }
+            7 => vec![self.slots[slot].as_ref().unwrap().total_weight() as i128],
+            8 => vec![ob_opt(self.slots[slot].as_ref().unwrap().min_value())],
+            9 => vec![ob_opt(self.slots[slot].as_ref().unwrap().max_value())],
+            10 => vec![self.slots[slot].as_ref().unwrap().is_empty() as i128],
+            17 => vec![self.slots[slot].as_ref().unwrap().k() as i128],
+            11 => parse_image(&self.slots[slot].as_mut().unwrap().serialize()),
+            12 => parse_image(&self.slots[slot].clone().unwrap().serialize()),
+            14 => {
+                let bytes = self.slots[slot].as_mut().unwrap().serialize();
+                match TDigestMut::deserialize(&bytes, false) {
+                    Ok(s) => {
+                        self.slots[slot] = Some(s);
+                        vec![1]
+                    }
+                    Err(_) => vec![ERR],
+                }
+            }
+            15 => {
+                let bytes: Vec<u8> = a[1..].iter().map(|b| *b as u8).collect();
+                match TDigestMut::deserialize(&bytes, false) {
+                    Ok(s) => {
+                        self.slots[slot] = Some(s);
+                        vec![1]
+                    }
+                    Err(_) => vec![ERR],
+                }
+            }
+            16 => {
+                let s = self.slots[slot].take().unwrap();
+                let mut s = s.freeze().unfreeze();
+                let ob = parse_image(&s.serialize());
+                self.slots[slot] = Some(s);
+                ob
+            }
+            18 => {
+                let s = self.slots[slot].as_mut().unwrap();
+                let mut out = vec![];
+                for q in &a[1..] {
+                    let x = s.quantile(f(*q));
+                    out.push(ob_opt(x));
+                    out.push(match x {
+                        Some(x) => ob_opt(s.rank(x)),
+                        None => NONE,
+                    });
+                }
+                out
+            }
+            _ => vec![PANIC],
+        }
     }
 }
